@@ -443,6 +443,11 @@ func precedentCorrect(e *Equation) *Equation {
 	if e.right == nil || e.right.o == nil {
 		return e
 	}
+	if e.o.prec == 0 {
+		// A function call, the arguments are not operands to reorder.
+		e.right = precedentCorrect(e.right)
+		return e
+	}
 	if e.o.prec <= e.right.o.prec {
 		r := e.right
 		e.right = r.left
